@@ -241,7 +241,8 @@ const (
 	c20MemHost = "c20mem.example"
 )
 
-var c20Payload = []byte("C20-PAYLOAD written by the operation under test\n")
+// the payload names the shard so that a file that shows up under "/" can be told from another shard's
+var c20Payload = []byte("C20-PAYLOAD shard=" + os.Getenv("VERIF_SHARD") + ". written by the operation under test\n")
 
 // Names chosen by the harness (not by the grammar) for files written below a hostile directory or link
 // name. They carry the shard number so that an absolute escape to "/" – the one place all shard
